@@ -5,7 +5,7 @@
     [brun] runs any call history.  No bound on the history. *)
 From RV Require Import Model.Base Model.Bytes Model.Module Model.Inst Model.Decoder Model.Parser Model.Loader Model.Builder.
 From RV Require Import Spec.Layout Spec.Conforms Proofs.LayoutFacts Proofs.BuilderFacts Proofs.BuilderIds Proofs.CodecFacts.
-From RV Require Import Proofs.BuildLoadFacts Proofs.BuildConformsFacts.
+From RV Require Import Proofs.BuildLoadFacts Proofs.BuildConformsFacts Proofs.EndToEndFacts Proofs.BuildRoundTripFacts.
 From RV Require Import Gen.BuilderData Inst.Linked Inst.Run Inst.C05_inst.
 
 Theorem C06_all_methods_described : unrecognised_methods = [].
@@ -71,6 +71,49 @@ Theorem C06_F18_type_struct_continued_never_conforms :
   forall t id ms, conforms G t (mk_inst 6090 None (Some id) (map OIdRef ms)) = false.
 Proof. exact type_struct_continued_never_conforms. Qed.
 
+(** THE WHOLE STATEMENT: a module produced by a complete history assembles to a
+    binary that the loader accepts, and the loaded module is the built one -
+    same instructions operand for operand, same sections, functions and
+    blocks - with the version set on the builder and a bound above every id.
+    Hypothesis: the emitted instruction stream conforms with the literal widths
+    of the layout order ... *)
+Theorem C06_built_module_roundtrips :
+  forall cs s' os h,
+  brun k_function_control descriptors bnew cs = Some (s', os) ->
+  forallb simple_call cs = true -> ends_closed k_function_control descriptors bnew cs -> complete s' ->
+  fst (finish s') = Some h ->
+  conforms_stream G [] (all_insts (bs_module s')) ->
+  let bytes := bytes_of_words (assemble_module (Some h) (bs_module s')) in
+  snd (load_case bytes) = Ok tt /\ loaded_module bytes = bs_module s' /\
+  loaded_header bytes = Some (norm_header h) /\ norm_header h = h.
+Proof. exact built_roundtrip. Qed.
+
+(** ... which follows from per-call argument conformance for histories without
+    context-dependent literals (OpConstant / OpSpecConstant / OpSwitch) *)
+Theorem C06_built_module_roundtrips_calls :
+  forall cs s' os h,
+  brun k_function_control descriptors bnew cs = Some (s', os) ->
+  forallb simple_call cs = true -> ends_closed k_function_control descriptors bnew cs -> complete s' ->
+  fst (finish s') = Some h ->
+  Forall call_conforming cs -> Forall plain_call cs ->
+  let bytes := bytes_of_words (assemble_module (Some h) (bs_module s')) in
+  snd (load_case bytes) = Ok tt /\ loaded_module bytes = bs_module s' /\ loaded_header bytes = Some h.
+Proof. exact built_roundtrip_calls. Qed.
+
+(** for context-dependent literals per-call conformance is NOT enough: a 32-bit
+    constant of a 64-bit type is accepted by the Builder and rejected on reload *)
+Theorem C06_literal_width_must_match_declared_type :
+  forallb simple_call width_history = true /\ Forall call_conforming width_history /\
+  ends_closed k_function_control descriptors bnew width_history /\
+  exists s' os h,
+    brun k_function_control descriptors bnew width_history = Some (s', os) /\ complete s' /\
+    fst (finish s') = Some h /\
+    all_insts (bs_module s') = [mk_inst 21 None (Some 1) [OLit32 64; OLit32 0];
+                                mk_inst 43 (Some 1) (Some 2) [OLit32 5]] /\
+    snd (load_case (bytes_of_words (assemble_module (Some h) (bs_module s'))))
+    = Er (POperandError (LimitReached 52)).
+Proof. exact constant_width_mismatch_rejected. Qed.
+
 Print Assumptions C06_all_methods_described.
 Print Assumptions C06_every_method_files_where_the_loader_would.
 Print Assumptions C06_built_module_survives_load.
@@ -79,3 +122,6 @@ Print Assumptions C06_methods_match_grammar_except.
 Print Assumptions C06_emitted_instruction_conforms.
 Print Assumptions C06_successful_call_emits_conforming_instruction.
 Print Assumptions C06_F18_type_struct_continued_never_conforms.
+Print Assumptions C06_built_module_roundtrips.
+Print Assumptions C06_built_module_roundtrips_calls.
+Print Assumptions C06_literal_width_must_match_declared_type.
